@@ -641,6 +641,17 @@ theorem unpar_flushes_self (σ : Store) (f : Nat) (t : Ast) (parents : Bool) :
   · exact touchParents_cache_stays _ _ _ f (touch_cache_self σ f)
   · exact touch_cache_self σ f
 
+/-- **offsetLns_flushes_subtree**: the cache clearing of `_offset_lns` (every node of `walk(self.a)` touched, then
+`_touchall(True, False, False)`; in the model `_touchall(parents, True, True)`) leaves every node of the subtree that
+has an FST with an empty cache - whatever the parents flag, any store, any subtree. -/
+theorem offsetLns_flushes_subtree (σ : Store) (f : Nat) (t : Ast) (parents : Bool) :
+    ∀ x ∈ ids t, ∀ g, σ.astF x = some g → ((touchall σ f t parents true true).fst g).cache = [] := by
+  intro x hx g hg
+  simp only [touchall, if_true]
+  split
+  · exact touchParents_cache_stays _ _ _ g (touchTree_clears t σ x hx g hg)
+  · exact touchTree_clears t σ x hx g hg
+
 /-- **renumber_positions**: after the renumbering loop that follows the removal of a span from (parallel) list fields,
 the FST of every remaining child records exactly the slot (field name and list index) the child now occupies, and the
 loop writes nothing else (`a`, `parent`, `a.f` untouched) - for any lists, provided the children are distinct objects
